@@ -254,9 +254,12 @@ impl FromDeliveryState for PostResult {
 
     fn from_delivery_state(state: DeliveryState) -> Self {
         match state {
+            // A resource that refuses the post itself (e.g. an unknown transaction id)
+            // answers with a plain rejected outcome: its error is what the caller
+            // needs to see
+            DeliveryState::Rejected(value) => Ok(Outcome::Rejected(value)),
             DeliveryState::Received(_)
             | DeliveryState::Accepted(_)
-            | DeliveryState::Rejected(_)
             | DeliveryState::Released(_)
             | DeliveryState::Modified(_)
             | DeliveryState::Declared(_) => Err(PostError::IllegalDeliveryState),
